@@ -158,6 +158,13 @@ Bound == Len(hist) <= Depth
 
 EmitReplay == Emit => PrintT(<<"REPLAY", ToJson(hist')>>)
 
+\* TLC skips the action constraint for successors that already fail the state constraint, so
+\* with Bound + EmitReplay the last layer of generated transitions is never printed.  The
+\* emitting configurations therefore use this action constraint alone (no CONSTRAINT): every
+\* generated transition is printed, and only histories of at most Depth calls are extended.
+EmitBound == /\ Emit => PrintT(<<"REPLAY", ToJson(hist')>>)
+             /\ Len(hist') <= Depth
+
 (* what TLC checks ----------------------------------------------------------*)
 NoViolation == viol = {}
 
